@@ -290,6 +290,14 @@ def consume(report, results, runner_cfg, label):
                 continue
             if r["job"] == "fast_path":
                 rep = replay_fast(report, runner_cfg, r["fmt"], r["q"], int(w), bool(m.get("many", False)), desc)
+                # further solver witnesses of the same violated contract (disjoint windows of w), until one reproduces
+                for m2 in ([] if rep else r.get("more_models") or []):
+                    if m2.get("w") is None:
+                        continue
+                    rep = replay_fast(report, runner_cfg, r["fmt"], r["q"], int(m2["w"]), bool(m2.get("many", False)),
+                                      desc + " (further witness w=%s)" % m2["w"])
+                    if rep:
+                        break
             else:
                 rep = replay_moderate(report, runner_cfg, r["fmt"], r["q"], int(w), bool(r.get("many", 0)), desc, r["job"])
             if not rep:
